@@ -455,18 +455,23 @@ func runCtor(c Ctor) (vk.Outcome, error) {
 			// a consumer that mixes calls under an ended context with live ones: a call either hands out the
 			// next value or fails with the context's error and costs nothing - no value may fall between them
 			got := []int{}
+			// (the contexts are of hand-written types when Extra is odd: pointer-free / by-value and not comparable)
+			live, dead := context.Context(bg), context.Context(cctx)
+			if c.Extra%2 == 1 {
+				live, dead = sk.DetachValue(bg), sk.DetachValue(cctx)
+			}
 			for i := 0; i < 4*len(c.Items)+8; i++ {
-				ctx := bg
+				ctx, ended := live, false
 				if i%3 != 2 {
-					ctx = cctx
+					ctx, ended = dead, true
 				}
 				v, err := s.Next(ctx)
 				if err == nil {
 					got = append(got, v)
 				} else if err == stream.End {
 					break
-				} else if ctx == bg || err != context.Canceled {
-					return out, vk.Violf("wrong-output", "stream.Chan: Next returned %v (context ended: %v)", err, ctx != bg)
+				} else if !ended || err != context.Canceled {
+					return out, vk.Violf("wrong-output", "stream.Chan: Next returned %v (context ended: %v)", err, ended)
 				}
 			}
 			if !reflect.DeepEqual(got, append([]int{}, c.Items...)) {
